@@ -716,12 +716,25 @@ void op_SUBST_E(World& w, const Op& op)
 {
    if (w.params.empty()) return;
    auto& p = *World::pick(w.params, op.a);
-   auto& e = *World::pick(w.exprs, op.b);
+   // the bound value is any expression; now and then another parameter, or the parameter itself (the identity binding)
+   const Expr* value = World::pick(w.exprs, op.b);
+   if (op.c % 8 == 1) value = World::pick(w.params, op.b);
+   if (op.c % 8 == 2) value = &p;
+   auto& e = *value;
    auto s = w.L().make_elementary_substitution(p, e);
    w.record("make_elementary_substitution", Entity{Aux::Substitution, static_cast<const Substitution*>(s)}, Category_code::Unknown, true);
    w.esubsts.push_back(s);
    w.esubst_model[s] = {&p, &e};
    w.substs.push_back(s);
+   // exactly its one binding, from the start: the bound parameter and a few others are asked right away
+   {
+      const Substitution& sub = *s;
+      if (&sub[p] != &e) w.findings.fail("C16:elementary:inside-domain", "a fresh elementary substitution does not yield the value it was built with");
+      for (unsigned k = 0; k < 3 && k < w.params.size(); ++k) {
+         const Parameter& q = *World::pick(w.params, op.d + k);
+         if (&q != &p && &sub[q] != static_cast<const Expr*>(&q)) w.findings.fail("C16:elementary:outside-domain", "a fresh elementary substitution replaces a parameter it was not built with");
+      }
+   }
    w.note("elementary-substitution");
 }
 
